@@ -22,9 +22,11 @@
 (* backtrack.py, fail.py, inline_python.py, utils.py (if_succeeds,         *)
 (* if_fails, breakable, repeat), operator_table.py (the shunting-yard      *)
 (* machine with its two stacks, the commit marker and the two checkpoints; *)
-(* section "operator tables" below).  Ignore-skipping, let/where/apply and *)
-(* calls are not transcribed (their positions are moved only through the   *)
-(* forms below).                                                           *)
+(* section "operator tables" below), and the ignore mechanism of           *)
+(* translator.py (skip after every literal, leading skip of the start      *)
+(* rule).  let/where/apply, classes and calls are not transcribed (their   *)
+(* positions are moved only through the forms below); InVM says which      *)
+(* grammars lie inside the transcribed fragment.                           *)
 (***************************************************************************)
 EXTENDS PegSem
 
@@ -88,9 +90,14 @@ RECURSIVE OTPrefixes(_, _, _, _)
 RECURSIVE OTPostfixes(_, _, _, _)
 RECURSIVE OTLoop(_, _, _, _)
 
+\* str.py / regex.py / byte.py: a literal matched up to q; with ignore declarations the translator sets skip_ignored on
+\* every literal (also on those inside the ignored rules themselves) and the generated code continues with
+\* `pos = yield (CALL, _ignored, end)` - the rule _ignored is Skip(Ref(I1), ..., Ref(In)) over the ignored rules.
+\* <<"iref", k>> stands for the reference to the k-th ignored rule (a Ref: default flags).
+IgnoredBody(G) == <<"skip", [k \in 1..Len(G.ign) |-> <<"iref", k>>]>>
+RunIgn(G, txt, q) == RunSkipRound(G, IgnoredBody(G)[2], 1, txt, q, q).pos
 LitOK(G, v, q, txt) ==
-    \* literal matched up to q (no ignore-skip in the transcribed families)
-    Reg(TRUE, v, q)
+    IF G.ign = <<>> THEN Reg(TRUE, v, q) ELSE Reg(TRUE, v, RunIgn(G, txt, q))
 
 Run(G, e, txt, p) ==
     CASE e[1] = "str" ->
@@ -109,7 +116,11 @@ Run(G, e, txt, p) ==
       [] e[1] = "py" -> Reg(TRUE, PyEval(e[2], EmptyEnv), p)
       [] e[1] = "fail" -> Reg(FALSE, Err, p)
       [] e[1] = "back" -> IF p >= e[2] THEN Reg(TRUE, None, p - e[2]) ELSE Reg(FALSE, Err, p)
-      [] e[1] = "ref" -> Run(G, G.rules[e[2]].body, txt, p)        \* the driver calls the rule; registers come back
+      [] e[1] = "ref" ->                                           \* the driver calls the rule; registers come back
+           \* translator.py: the start rule's expression becomes  _ignored >> expr  when there are ignore declarations
+           LET lead == IF e[2] = G.start /\ G.ign # <<>> THEN RunIgn(G, txt, p) ELSE p IN
+           Run(G, G.rules[e[2]].body, txt, lead)
+      [] e[1] = "iref" -> Run(G, G.ign[e[2]], txt, p)
       [] e[1] = "seq" -> RunSeq(G, e[2], 1, txt, p, <<>>)
       [] e[1] \in {"left", "right"} ->                             \* discard.py
            LET r1 == Run(G, e[2], txt, p) IN
@@ -321,6 +332,23 @@ OTLoop(G, tbl, txt, S) ==
                               ELSE OTLoop(G, tbl, txt,
                                           [S6 EXCEPT !.marker = Len(S6.ops),
                                                      !.ops = Append(@, <<o.res[2], o.res[3], o.res[4]>>)])
+
+(* ---- the fragment of the grammar language that is transcribed ---- *)
+RECURSIVE InVM(_)
+InVM(e) ==
+    CASE e[1] \in {"str", "stri", "rx", "byte", "fail", "back", "ref"} -> TRUE
+      [] e[1] \in {"seq", "choice", "skip", "longest"} -> \A k \in 1..Len(e[2]) : InVM(e[2][k])
+      [] e[1] \in {"left", "right"} -> InVM(e[2]) /\ InVM(e[3])
+      [] e[1] \in {"opt", "expect", "not"} -> InVM(e[2])
+      [] e[1] = "list" -> InVM(e[2]) /\ e[3][1] \in {"none", "n"} /\ e[4][1] \in {"none", "n"}
+      [] e[1] = "sep" -> InVM(e[2]) /\ InVM(e[3])
+      [] e[1] = "optable" -> InVM(e[2]) /\ \A r \in 1..Len(e[3]) : \A k \in 1..Len(e[3][r][2]) : InVM(e[3][r][2][k])
+      [] OTHER -> FALSE
+
+GInVM(G) ==
+    /\ \A k \in 1..Len(G.ign) : InVM(G.ign[k])
+    /\ \A r \in DOMAIN G.rules :
+          G.rules[r].kind = "rule" /\ G.rules[r].params = <<>> /\ InVM(G.rules[r].body)
 
 (* ---- refinement ---- *)
 \* the registers after running e at 0 are what PegSem says (value and end on success; failure otherwise)
